@@ -91,17 +91,28 @@ static void ref_reorder(const unsigned *cp, int n, int ctx, int *vis)
 	}
 }
 
+#define MAXC 24
+static void check_cps(const unsigned *cpin, int n0, int marks);
 static void check_line(const int *idx, int n0, int marks)
+{
+	unsigned cp[MAXC];
+	int i;
+	for (i = 0; i < n0; i++)
+		cp[i] = alpha[idx[i]];
+	check_cps(cp, n0, marks);
+}
+
+static void check_cps(const unsigned *cpin, int n0, int marks)
 {
 	static const int tds[] = {-2, -1, 0, 1, 2};
 	static const int orders[] = {0, 1, 2};
 	static const int lims[] = {2, 256};
-	char s[MAXL * 4 + 8];
-	unsigned cp[MAXL + 2];
-	int ord[MAXL + 2], vis[MAXL + 2], seen[MAXL + 2];
+	char s[MAXC * 4 + 8];
+	unsigned cp[MAXC + 2];
+	int ord[MAXC + 2], vis[MAXC + 2], seen[MAXC + 2];
 	int len = 0, i, it, io, il, n = n0 + 1, multibyte = 0;
 	for (i = 0; i < n0; i++) {
-		cp[i] = alpha[idx[i]];
+		cp[i] = cpin[i];
 		multibyte |= cp[i] >= 0x80;
 		len += ref_enc(cp[i], s + len);
 	}
@@ -130,6 +141,33 @@ static void check_line(const int *idx, int n0, int marks)
 		if (ord[n - 1] != n - 1)
 			BAD("c18-permutation", "terminator at visual slot of ord[%d]=%d", n - 1, ord[n - 1]);
 		nv_stat("transitions", 1);
+		/* letters that are adjacent in the text and of one direction stay adjacent on the screen and read in their own direction */
+		{
+			int slot[MAXC + 2];
+			for (i = 0; i < n; i++)
+				slot[ord[i]] = i;
+			for (i = 0; i + 1 < n0; i++) {
+				int a = cls(cp[i]), b = cls(cp[i + 1]), want;
+				if (a != b || (a != CL_L && a != CL_R))
+					continue;
+				/* inside a configured mark only Latin letters are claimed (what right-to-left letters do inside a
+				 * nested mark of a right-to-left line is the configuration's business, not the property's) */
+				if (marks && a == CL_R)
+					continue;
+				if (marks == 2)
+					continue;	/* a mark whose content holds right-to-left letters: nothing is claimed beyond the permutation */
+				/* screen position grows with the slot in a left-to-right line and shrinks with it in a right-to-left one */
+				want = (a == CL_L ? +1 : -1) * (ctx > 0 ? +1 : -1);
+				if (slot[i + 1] - slot[i] != want) {
+					char a1[64] = "";
+					int k;
+					for (k = 0; k < n; k++)
+						sprintf(a1 + strlen(a1), "%d ", ord[k]);
+					BAD("c18-run-direction", "ctx=%d characters %d and %d (%s letters, adjacent in the text) are at visual slots %d and %d; visual order [%s]",
+						ctx, i, i + 1, a == CL_L ? "left-to-right" : "right-to-left", slot[i], slot[i + 1], a1);
+				}
+			}
+		}
 		if (!marks) {
 			/* (2)+(3) exactly the opposite-direction runs are reversed in place */
 			ref_reorder(cp, n0, ctx, vis);
@@ -195,11 +233,53 @@ static void part_reorder(int maxl)
 				}
 				if (marks && !hasmark)
 					continue;	/* already covered without marks */
-				check_line(idx, n, marks);
+				check_line(idx, n, marks ? 2 : 0);
 				total++;
 				nontriv += hasr && hasl;
 			}
 		}
+	}
+	/* complete direction marks: prefix + open + content + close + suffix */
+	{
+		static const char *opens[] = {"\\*[", "$", "\\x{", "\\a", "\\*[", "\\ab{"};
+		static const char *closes[] = {"]", "$", "}", "", "]", "}"};
+		static const unsigned pres[][3] = {{0}, {'a', 0}, {0x628, 0}, {0x628, ' ', 0}, {'a', ' ', 0}};
+		int m, pi, si, cl;
+		long k, cnt, fam = 0;
+		for (m = 0; m < 6; m++)
+			for (pi = 0; pi < 5; pi++)
+				for (si = 0; si < 5; si++)
+					for (cl = 1, cnt = NBASE; cl <= 3; cl++, cnt *= NBASE)
+						for (k = 0; k < cnt; k++) {
+							unsigned cp[MAXC];
+							int q = 0, j;
+							long v = k;
+							const char *c;
+							if ((fam++ % nv_nshards) != nv_shard)
+								continue;
+							if (nv_expired())
+								goto out;
+							for (j = 0; pres[pi][j]; j++)
+								cp[q++] = pres[pi][j];
+							for (c = opens[m]; *c; c++)
+								cp[q++] = (unsigned char) *c;
+							for (j = 0; j < cl; j++) {
+								cp[q++] = alpha[v % NBASE];
+								v /= NBASE;
+							}
+							for (c = closes[m]; *c; c++)
+								cp[q++] = (unsigned char) *c;
+							for (j = 0; pres[si][j]; j++)
+								cp[q++] = pres[si][j];
+							{
+								int hasr = 0;
+								for (j = 0; j < q; j++)
+									hasr |= cls(cp[j]) == CL_R && j >= (int) (pres[pi][0] ? (pres[pi][1] ? 2 : 1) : 0) && j < q - (int) (pres[si][0] ? (pres[si][1] ? 2 : 1) : 0);
+								check_cps(cp, q, hasr ? 2 : 1);
+							}
+							total++;
+							nontriv++;
+						}
 	}
 out:
 	nv_stat("lines", total);
